@@ -60,13 +60,19 @@ where
         // If the ratio of the variance between dimensions is too small, it will cause
         // numerical errors. We address this by artificially boosting the variance
         // by `epsilon` (a small fraction of the variance of the largest feature)
-        let epsilon = self.var_smoothing() * *x.var_axis(Axis(0), F::zero()).max()?;
+        let first_fit = model_in.is_none();
 
         let mut model = match model_in {
             Some(mut temp) => {
+                // Remove the boost added by the previous call. It is a fraction of the largest
+                // feature variance of all the data seen so far, which is recovered from the
+                // per-class statistics. The stored variances carry the boost themselves, so that
+                // `epsilon_old = var_smoothing * (max_variance_boosted - epsilon_old)`
+                let epsilon_old = self.var_smoothing() * Self::max_feature_variance(&temp)?
+                    / (F::one() + self.var_smoothing());
                 temp.class_info
                     .values_mut()
-                    .for_each(|x| x.sigma -= epsilon);
+                    .for_each(|x| x.sigma -= epsilon_old);
                 temp
             }
             None => GaussianNb {
@@ -97,8 +103,13 @@ where
             class_info.class_count += nclass;
         }
 
-        // We add back the epsilon previously subtracted for numerical
-        // calculation stability
+        // We add the epsilon (previously subtracted from an existing model) for numerical
+        // calculation stability. It always refers to all the data the model has seen.
+        let epsilon = if first_fit {
+            self.var_smoothing() * *x.var_axis(Axis(0), F::zero()).max()?
+        } else {
+            self.var_smoothing() * Self::max_feature_variance(&model)?
+        };
         model
             .class_info
             .values_mut()
@@ -137,6 +148,27 @@ impl<F, L> GaussianNbValidParams<F, L>
 where
     F: Float,
 {
+    // Largest variance of a feature over all the data seen by `model`, computed from the class
+    // counts, means and variances (law of total variance)
+    fn max_feature_variance(model: &GaussianNb<F, L>) -> Result<F>
+    where
+        L: Eq + Hash,
+    {
+        let infos = model.class_info.values();
+        let count = F::cast(infos.clone().map(|x| x.class_count).sum::<usize>());
+        let nfeatures = infos.clone().map(|x| x.theta.len()).max().unwrap_or(0);
+        let mut mean = Array1::<F>::zeros(nfeatures);
+        for info in infos.clone() {
+            mean += &(&info.theta * (F::cast(info.class_count) / count));
+        }
+        let mut variance = Array1::<F>::zeros(nfeatures);
+        for info in infos {
+            let between = (&info.theta - &mean).mapv(|x| x.powi(2));
+            variance += &((&info.sigma + &between) * (F::cast(info.class_count) / count));
+        }
+        Ok(*variance.max()?)
+    }
+
     // Compute online update of gaussian mean and variance
     fn update_mean_variance(
         info_old: &GaussianClassInfo<F>,
